@@ -285,6 +285,55 @@ def _histories(alphabet, maxlen):
         yield from layer
 
 
+def _pick_delim(rnd, cur, chunk, buffered=None):
+    """A delimiter for read_until / pipe_until / delimit: one of the fixed ones, or - half of the time - a piece of the data cut
+    out around the current position (starting just before it, so that its head is already consumed, at it, or near the next
+    buffer border), which is what alignment bugs in the cross-chunk search depend on."""
+    if cur is not None and cur.d and rnd.random() < 0.5:
+        p = min(cur.ps)
+        if buffered is not None and rnd.random() < 0.6:
+            s0 = p + buffered - rnd.choice([0, 1, 1, 2, 2, 3, 4])      # starts shortly before the end of what is buffered
+            if rnd.random() < 0.3:
+                s0 = min(s0, p - 1)                                       # ... and before the cursor: its head is already consumed
+        else:
+            s0 = p + rnd.choice([-2, -1, -1, 0, 1, 2, 3, chunk - 2, chunk - 1, chunk, chunk + 1, 2 * chunk - 1, 2 * chunk])
+        ln = rnd.randint(1, max(1, min(chunk, 5)))
+        d = cur.d[max(s0, 0):max(s0, 0) + ln]
+        if d:
+            return d
+    d = rnd.choice(DELIMS)
+    return d[:chunk] if len(d) > chunk else d
+
+
+def _straddle(rnd, cur, chunk, buffered, usizes):
+    """Two operations aimed at the buffer border: a read that leaves 0..3 bytes in the buffer, then a read_until whose delimiter
+    is cut out of the data so that it starts up to two bytes before the new position (head already consumed) or at/after it and
+    extends beyond the end of the buffered bytes."""
+    p = min(cur.ps)
+    s_left = rnd.choice([0, 1, 1, 2, 2, 3])
+    if buffered is None or buffered < s_left or chunk < 2:
+        return None
+    n = buffered - s_left
+    q = p + n
+    u = rnd.choice([0, 0, 1, 1, 2])
+    ln = min(chunk, u + s_left + rnd.choice([1, 1, 2, 3]))
+    d = cur.d[max(q - u, 0):max(q - u, 0) + ln]
+    if not d:
+        return None
+    return [('read', n), ('ru', d, rnd.choice([-1, -1, None, 0, 1, 2, s_left, s_left + 1, 100] if rnd.random() < 0.7 else usizes), rnd.choice([0, 0, 1]))]
+
+
+def _ncases(ctx, quick, thorough):
+    """Random cases for this shard. When the runner is searching for a failing input (after a broken proof / correspondence) it
+    re-runs with tier=thorough at 10x (from quick) or 3x (from thorough) scale; twenty times the quick volume, under a new seed, is
+    what a search gets here - not ten times the thorough volume, which would run for hours."""
+    if not ctx.searching:
+        return ctx.n(quick, thorough)
+    total = quick * 20
+    i, k = ctx.shard
+    return total // k + (1 if i < total % k else 0)
+
+
 # ====================================================================== sync reader
 
 SYNC_GRID_OPS = [('read', 1), ('read', 2), ('read', None), ('peek', -1), ('peek', 1),
@@ -369,7 +418,8 @@ def _run_sync(env, plan, next_op, sess=None):
     hist, failed, nontriv, spec_on, tags = [], None, False, True, set()
     while failed is None:
         exact = (not spec_on) or stack[-1][1].exact()
-        op = next_op(len(stack) - 1, exact, spec_on)
+        buffered = (min(src.pos, max(maxlen, 0)) - min(stack[0][1].ps)) if (len(stack) == 1 and spec_on) else None
+        op = next_op(len(stack) - 1, exact, spec_on, stack[-1][1], buffered)
         if op is None:
             break
         k = op[0]
@@ -461,27 +511,26 @@ def _sync_chooser(rnd, plan, wild):
     total = rnd.randint(1, 10) if rnd.random() < 0.8 else rnd.randint(11, 30)
     left = [total * 3]      # ops that turn out inapplicable are skipped; bound the draws
 
-    def base():
+    def base(cur, buffered):
         k = rnd.choice(['read'] * 4 + ['peek'] * 2 + ['ru'] * 6 + ['pu'] * 2 + ['rl'] * 3 + ['rls', 'pipe', 'exhaust'])
+        near = [max(0, buffered + e) for e in (-3, -2, -1, -1, 0, 1)] if buffered else None    # sizes that end near the buffer border
         if k == 'read':
-            return ('read', rnd.choice(sizes))
+            return ('read', rnd.choice(near if near and rnd.random() < 0.3 else sizes))
         if k == 'peek':
             return ('peek', rnd.choice([-1, 0, 1, 2, 3, 9, 70]))
         if k in ('ru', 'pu'):
-            d = rnd.choice(DELIMS)
-            if wild and rnd.random() < 0.05:
-                d = rnd.choice([b'', b'ab' * 40])
-            elif len(d) > plan['chunk'] and not (wild and rnd.random() < 0.3):
-                d = d[:plan['chunk']]
-            return ('ru', d, rnd.choice(usizes), rnd.choice([0, 0, 1])) if k == 'ru' else ('pu', d, rnd.choice([0, 1]))
+            d = _pick_delim(rnd, cur, plan['chunk'], buffered)
+            if wild and rnd.random() < 0.08:
+                d = rnd.choice([b'', b'ab' * 40, b'\r\n--', b'a-a'])
+            return ('ru', d, rnd.choice(near if near and rnd.random() < 0.2 else usizes), rnd.choice([0, 0, 1])) if k == 'ru' else ('pu', d, rnd.choice([0, 1]))
         if k == 'rl':
             return ('rl', rnd.choice([-1, -1, None, 0, 1, 3, 100]))
         if k == 'rls':
             return ('rls', rnd.choice([-1, -1, 0, 1, 3, 100]))
         return (k,)
-    state = {'n': 0, 'drain': False}
+    state = {'n': 0, 'drain': False, 'queue': []}
 
-    def next_op(depth, exact, spec_on):
+    def next_op(depth, exact, spec_on, cur=None, buffered=None):
         if state['n'] >= total or left[0] <= 0:
             return None
         left[0] -= 1
@@ -491,11 +540,8 @@ def _sync_chooser(rnd, plan, wild):
             return ('pop',)
         x = rnd.random()
         if depth < 2 and x < 0.2:
-            d = rnd.choice(DELIMS)
-            if len(d) > plan['chunk']:
-                d = d[:plan['chunk']]
             state['n'] += 1
-            return ('delimit', d)
+            return ('delimit', _pick_delim(rnd, cur if spec_on else None, plan['chunk']))
         if depth > 0 and x < 0.2 + 0.12 * depth:
             state['n'] += 1
             if rnd.random() < 0.6:
@@ -503,7 +549,14 @@ def _sync_chooser(rnd, plan, wild):
                 return rnd.choice([('exhaust',), ('pipe',), ('read', None), ('read', -1)])
             return ('pop',)
         state['n'] += 1
-        op = base()
+        if state['queue']:
+            return state['queue'].pop(0)
+        if spec_on and cur is not None and buffered and rnd.random() < 0.08:
+            two = _straddle(rnd, cur, plan['chunk'], buffered, usizes)
+            if two:
+                state['queue'].append(two[1])
+                return two[0]
+        op = base(cur if spec_on else None, buffered)
         if wild and depth > 0 and rnd.random() < 0.3:
             return ('up', rnd.randint(1, depth), op)
         return op
@@ -530,7 +583,7 @@ def _sync(ctx, BR, DelimiterError):
             ctx.count('sync_' + t)
 
     # ---- random histories
-    for _ in range(ctx.n(9000, 160000)):
+    for _ in range(_ncases(ctx, 9000, 160000)):
         if env.hangs >= MAX_HANGS:
             ctx.notes.append(f'sync generation stopped after {env.hangs} calls that did not return'); break
         big = rnd.random() < 0.1
@@ -543,7 +596,7 @@ def _sync(ctx, BR, DelimiterError):
         ctx.count('sync_maxlen_' + ('exact' if plan['maxlen'] == len(plan['data']) else 'shorter' if plan['maxlen'] < len(plan['data']) else 'truncated_body'))
         ctx.count('sync_ops', len(hist))
     # ---- grid: every short data string x chunk size x source pattern x every short history
-    words = _words(3 if ctx.quick else 4)
+    words = _words(3 if ctx.quick else 4) if not (ctx.searching and ctx.scale < 10) else []   # a search started from thorough would repeat the same grid
     hists3 = list(_histories(SYNC_GRID_OPS, 2 if ctx.quick else 3))
     hists2 = [h for h in hists3 if len(h) <= 2]
     chunks = [1, 2, 3, 5, 64] if ctx.quick else CHUNKS
@@ -638,10 +691,13 @@ async def _run_async(env, plan, next_op, sess=None):
     parts, chunk, sleepy = plan['parts'], plan['chunk'], plan.get('sleepy', False)
     data = b''.join(parts)
 
+    delivered = [0]
+
     async def gen():
         for p in parts:
             if sleepy:
                 await asyncio.sleep(0)
+            delivered[0] += len(p)
             yield p
     root = BR(gen(), chunk)
     stack = [[root, Cur(data, chunk, asynch=True), 0, False]]
@@ -651,7 +707,8 @@ async def _run_async(env, plan, next_op, sess=None):
         sess.op(f'new {chunk} ' + ' '.join(_hx(p) for p in parts), 'ok')
     hist, failed, nontriv, tags, spec_on = [], None, False, set(), True
     while failed is None:
-        op = next_op(len(stack) - 1, stack[-1][1].exact(), stack[-1][3])
+        buffered = (delivered[0] - min(stack[0][1].ps)) if (len(stack) == 1 and spec_on) else None
+        op = next_op(len(stack) - 1, stack[-1][1].exact(), stack[-1][3], stack[-1][1], buffered)
         if op is None:
             break
         k = op[0]
@@ -751,9 +808,9 @@ def _async_chooser(rnd, plan):
     total = rnd.randint(1, 10) if rnd.random() < 0.8 else rnd.randint(11, 30)
     left = [total * 3]
     nest = rnd.random() < 0.4
-    state = {'n': 0, 'drain': False}
+    state = {'n': 0, 'drain': False, 'queue': []}
 
-    def next_op(depth, exact, iterated):
+    def next_op(depth, exact, iterated, cur=None, buffered=None):
         if state['n'] >= total or left[0] <= 0:
             return None
         left[0] -= 1
@@ -763,23 +820,30 @@ def _async_chooser(rnd, plan):
             return ('pop',)
         x = rnd.random()
         if nest and depth < 2 and x < 0.2:
-            d = rnd.choice(DELIMS)
-            return ('delimit', d[:plan['chunk']] if len(d) > plan['chunk'] else d)
+            return ('delimit', _pick_delim(rnd, cur, plan['chunk']))
         if depth > 0 and x < 0.2 + 0.12 * depth:
             if rnd.random() < 0.6:
                 state['drain'] = True
                 return rnd.choice([('exhaust',), ('pipe',), ('read', None), ('readall',)])
             return ('pop',)
         k = rnd.choice(['read'] * 4 + ['peek'] * 2 + ['ru'] * 6 + ['pu'] * 2 + ['readall', 'pipe', 'exhaust'] + (['iter'] if nest else []))
+        near = [max(0, buffered + e) for e in (-3, -2, -1, -1, 0, 1)] if buffered else None
+        if state['queue']:
+            return state['queue'].pop(0)
+        if cur is not None and buffered and rnd.random() < 0.08:
+            two = _straddle(rnd, cur, plan['chunk'], buffered, usizes)
+            if two:
+                state['queue'].append(two[1])
+                return two[0]
         if k == 'read':
-            return ('read', rnd.choice(sizes))
+            return ('read', rnd.choice(near if near and rnd.random() < 0.3 else sizes))
         if k == 'peek':
             return ('peek', rnd.choice([-1, 0, 1, 2, 3, 9, 70]))
         if k in ('ru', 'pu'):
-            d = rnd.choice(DELIMS)
-            if len(d) > plan['chunk']:
-                d = d[:plan['chunk']]
-            return ('ru', d, rnd.choice(usizes), rnd.choice([0, 0, 1])) if k == 'ru' else ('pu', d, rnd.choice([0, 1]))
+            d = _pick_delim(rnd, cur, plan['chunk'], buffered)
+            if not nest and rnd.random() < 0.04:
+                d = rnd.choice([b'', b'ab' * 40, b'\r\n--', b'a-a'])      # possibly invalid for this chunk size: model comparison
+            return ('ru', d, rnd.choice(near if near and rnd.random() < 0.2 else usizes), rnd.choice([0, 0, 1])) if k == 'ru' else ('pu', d, rnd.choice([0, 1]))
         if k == 'iter':
             return ('iter', rnd.randint(1, 3))
         return (k,)
@@ -807,7 +871,7 @@ def _async(ctx, BR, DelimiterError):
             stuck[0] += 1
 
     async def main():
-        for _ in range(ctx.n(7000, 120000)):
+        for _ in range(_ncases(ctx, 7000, 120000)):
             if stuck[0] >= MAX_HANGS:
                 ctx.notes.append('async generation stopped: calls did not return'); break
             big = rnd.random() < 0.1
@@ -817,7 +881,7 @@ def _async(ctx, BR, DelimiterError):
             ctx.count('async_len_' + ('big' if big else 'small'))
             ctx.count('async_src_' + plan['src_mode'])
             ctx.count('async_ops', len(res[1]))
-        words = _words(3 if ctx.quick else 4)
+        words = _words(3 if ctx.quick else 4) if not (ctx.searching and ctx.scale < 10) else []
         hists3 = list(_histories(ASYNC_GRID_OPS, 2 if ctx.quick else 3))
         hists2 = [h for h in hists3 if len(h) <= 2]
         chunks = [1, 2, 3, 5, 64] if ctx.quick else CHUNKS
@@ -883,7 +947,7 @@ def _cyutil_twin(ctx):
     """NON-gating: falcon/cyutil/reader.*.so is a stale prebuilt artefact (cannot be rebuilt here, predates fix b05da5a)."""
     import json, os, subprocess, sys
     here = os.path.dirname(os.path.dirname(os.path.abspath(__file__)))
-    for truncated, n, tmo in ((False, 20000, 240), (True, 3000, 60)):
+    for truncated, n, tmo in ((False, 30000, 240), (True, 300, 8)):
         label = 'cyutil_twin[' + ('truncated bodies' if truncated else 'complete bodies') + ']'
         code = (f'import sys; sys.path.insert(0, {here!r}); import srcload; import props.c14 as m; '
                 f'm._cy_observe({ctx.seed + 14}, {n}, {truncated})')
@@ -909,7 +973,7 @@ def _cyutil_twin(ctx):
         ctx.count(label + ' cases differing from the flat cursor (observation only)', last['diff'] + (1 if hung else 0))
         msg = f"{label} OBSERVATION ONLY (prebuilt .so, not the verified source, never part of the verdict): {last['progress']} cases, {last['diff']} differ from the flat cursor"
         if hung:
-            msg += f"; then the process hung inside the compiled code on {last.get('current')} (the artefact predates fix b05da5a / F21)"
+            msg += f"; then the process did not return from the compiled code on {str(last.get('current'))[:200]} and was killed after {tmo} s (the artefact predates fix b05da5a / F21)"
         if last.get('first'):
             msg += f"; first difference: {json.dumps(last['first'])[:500]}"
         ctx.notes.append(msg)
